@@ -2,6 +2,8 @@
 From Coq Require Import Floats.
 From EF Require Import Model.Base Model.Code Model.Value Model.Env Model.Reflect Model.Builtins Model.Compiler
                        Model.Optimizer Model.VM Model.Api Proofs.TruthProofs Proofs.ApiProofs Proofs.CallProofs.
+From EF Require Import Gen.Tables Model.Ast Model.Parser Model.OptSafe Spec.ExecFun.
+From EF Require Proofs.ProgProofs Proofs.EndToEndProofs.
 Open Scope N_scope.
 
 (* Run = truth value of Execute, fails exactly when it does, leaves the same state *)
@@ -62,3 +64,52 @@ Theorem C20_prepare_idempotent : forall o e flag u p e1 u' p' e2,
   prepare o e flag = (PrepOk u p, e1) -> prepare o e1 flag = (PrepOk u' p', e2) ->
   u' = u /\ p' = p.
 Proof. exact ApiProofs.prepare_idempotent. Qed.
+
+(* ------------------------------------------------------------------ *)
+(* END TO END.  What Execute returns after Prepare is what the reference interpreter of Spec/ExecFun.v
+   computes on the parsed script: lexer, parser, compiler, (validated) optimizer and virtual machine
+   composed.  For every script text, every host object, every set of host functions and variables:
+   the value (or the error class), the host-call trace and the variables left behind agree, no scope
+   stays open, and the evaluator that later operations see holds exactly those variables - so the
+   statement composes over histories of runs.  Hypotheses: no deadline is set; array literals and
+   argument lists are shorter than 65536; the program is not optimized, or the validated optimizer
+   answered (the check runs it on every program). *)
+Theorem C20_end_to_end : forall (o : stdlib) e optimize u p e1 ast,
+  ectx e = None ->
+  prepare o e optimize = (PrepOk u p, e1) ->
+  parse_script (parse_float o) max_depth (escript e) = ParseOk ast ->
+  ProgProofs.plain_program ast = true ->
+  (p = u \/ optimize_program_safe u = Some p) ->
+  forall obj sfuel,
+    let fuelc := (4 * List.length (escript e) + 40)%nat in
+    let m0 := mkM [] (env_truncate (eenv e1) 0) [] None in
+    match sblock o (efns e1) obj (collect_block fuelc ast []) sfuel ast m0 with
+    | XNormal m' => exists n, forall k,
+        execute o (n + k) e1 obj =
+          (RExec (EndToEndProofs.fall_class u) VNull (rev (trace m')) (globals (menv m')) 0 (List.length (stk m')),
+           EndToEndProofs.with_vars e1 (globals (menv m')))
+    | XReturn v m' => exists n, forall k,
+        execute o (n + k) e1 obj =
+          (RExec ROk v (rev (trace m')) (globals (menv m')) 0 (List.length (stk m')),
+           EndToEndProofs.with_vars e1 (globals (menv m')))
+    | XErr ENeedOracle _ | XErr EFuel _ => True
+    | XErr x _ => exists c, class_of x = Some c /\
+        exists tr vars rs n, forall k,
+          execute o (n + k) e1 obj = (RExec c VNull tr vars 0 rs, EndToEndProofs.with_vars e1 vars)
+    end.
+Proof. exact EndToEndProofs.end_to_end. Qed.
+
+(* a script that only defines functions compiles to an empty main: Execute reports the script error *)
+Theorem C20_empty_main : forall (o : stdlib) e optimize u p e1,
+  prepare o e optimize = (PrepOk u p, e1) ->
+  (p = u \/ optimize_program_safe u = Some p) -> pmain u = [] ->
+  forall fuel obj, execute o fuel e1 obj =
+    (RExec RScriptError VNull [] (globals (eenv e1)) 0 0, EndToEndProofs.with_vars e1 (globals (eenv e1))).
+Proof. exact EndToEndProofs.end_to_end_empty_main. Qed.
+
+(* non-vacuity: `function f(a) { return a + 2 * 5; } x = f(1 + 1); return x;` prepared with the optimizer
+   (which rewrites both bodies, validated) returns 12 - obtained from the theorem, not by running byte-code *)
+Theorem C20_end_to_end_example : exists n, forall k,
+  execute EndToEndProofs.Demo.o (n + k) EndToEndProofs.Demo.e1 HNil =
+    (RExec ROk (VInt 12) [] EndToEndProofs.Demo.vars 0 0, EndToEndProofs.with_vars EndToEndProofs.Demo.e1 EndToEndProofs.Demo.vars).
+Proof. exact EndToEndProofs.Demo.execute_result. Qed.
